@@ -399,12 +399,12 @@ def part_d(rec, tier, seed, stats):
     for j in range(n_rand):
         n = int(rng.integers(6, n_max + 1))
         p = 2 if j % 5 == 3 else 1
-        X = rng.integers(-2, 3, size=(n, p)).astype(float) if j % 3 == 0 else np.round(rng.normal(size=(n, p)) * 2, 1)
-        one("GaussianVarCost" if j % 4 == 0 else "L2Cost", X, "class" if j % 7 == 0 else "run_pelt", with_m1=(j % 4 == 1))
+        X = rng.integers(-3, 4, size=(n, p)).astype(float) if j % 4 == 0 else np.round(rng.normal(size=(n, p)) * 3, 1)
+        one("GaussianVarCost" if j % 6 == 0 else "L2Cost", X, "class" if j % 7 == 0 else "run_pelt", with_m1=(j % 4 == 1))
     for _, _, _, v in sorted(found, key=lambda t: t[:3]):             # smallest series first: it is the one kept per key
         rec.violation(*v)
     return (f"D: penalties {LADDER}; L2 cost on all of {{0,1,2}}^n for n <= {n_full}" + ("" if tier == "quick" else " and on 0 x {0,1,2}^7")
-            + f"; {n_rand} random series (integers in -2..2 or normal rounded to 0.1), 6 <= n <= {n_max}, p <= 2, L2 / Gaussian-variance cost, "
+            + f"; {n_rand} random series (integers in -3..3 or 3 * normal rounded to 0.1), 6 <= n <= {n_max}, p <= 2, L2 / Gaussian-variance cost, "
             "min_segment_length <= 3 (1 for every fourth series only), run_pelt and PELT.fit_predict")
 
 
